@@ -17,8 +17,14 @@ import (
 func init() {
 	caseFamilies["c05err"] = &caseFamily{
 		Shard: 1, Par: 6,
-		Count: func(tier string) int { return 12 },
+		Count: func(tier string) int { return 12 + 6 },
 		Run: func(out *rec.Out, idx int, rng *rec.Rng, tier string, stats map[string]int) {
+			if idx >= 12 {
+				// an inclusive fork with an outgoing flow that has NO condition (and is not the default) listed before /
+				// between conditional ones: it is always taken, the others by their conditions
+				c05errRun(out, "inclusiveGateway", 3+(idx-12)%3, idx >= 15, stats)
+				return
+			}
 			c05errRun(out, []string{"inclusiveGateway", "exclusiveGateway"}[idx/6], idx%3, idx%6 >= 3, stats)
 		},
 	}
@@ -34,9 +40,16 @@ func c05errRun(out *rec.Out, kind string, pos int, dflt bool, stats map[string]i
 	conds := []*eng.Cond{{Op: "eq", Var: "w", K: 1}, {Op: "eq", Var: "w", K: 7}}
 	failing := &eng.Cond{Op: "nonbool", Var: "w", K: 1}
 	list := append([]*eng.Cond{}, conds[:pos%3]...)
-	if pos >= 2 {
+	switch {
+	case pos == 3: // [unconditional, false, true]
+		list = []*eng.Cond{nil, conds[1], conds[0]}
+	case pos == 4: // [unconditional, true, false]
+		list = []*eng.Cond{nil, conds[0], conds[1]}
+	case pos == 5: // [false, unconditional, true]
+		list = []*eng.Cond{conds[1], nil, conds[0]}
+	case pos >= 2:
 		list = append(append([]*eng.Cond{}, conds...), failing)
-	} else {
+	default:
 		list = append(append(list, failing), conds[pos:]...)
 	}
 	for i, c := range list {
